@@ -21,7 +21,7 @@ theorem states it for the whole step function, so a query added later is covered
 theorem queries_never_write (w : World) (op : Op)
     (hq : match op with
       | .readAll .. | .readFirstN .. | .readN .. | .nLines .. | .lastLine | .len | .isEmpty | .range
-      | .payloadSize | .page .. | .files | .get .. => True
+      | .payloadSize | .flush | .page .. | .files | .get .. => True
       | _ => False) :
     (step w op).1.dir = w.dir :=
   queries_do_not_write w op hq
